@@ -90,6 +90,7 @@ type sBody struct {
 	// net/http fills Response.Trailer when the body read reaches EOF, not before
 	pendingTrailer http.Header
 	trailer        http.Header
+	tr             *sTransport
 }
 
 func newSBody(ctx context.Context) *sBody { return &sBody{wake: make(chan struct{}, 1), ctx: ctx} }
@@ -143,10 +144,29 @@ func (b *sBody) Read(p []byte) (int, error) {
 			return 0, err
 		}
 		b.mu.Unlock()
+		// What wakes a body read that waits for data (net/http's HTTP/2 transport):
+		// data or the end of the body; the stream being aborted because the transport
+		// found the request body closed under it; the end of the context once the
+		// request has been sent completely (from then on the transport watches it).
+		// While the request side is open, the end of the context alone wakes nothing.
 		select {
 		case <-b.wake:
-		case <-b.ctx.Done():
-			return 0, b.ctx.Err()
+		case <-time.After(200 * time.Microsecond):
+			if b.tr != nil {
+				select {
+				case <-b.tr.abort:
+					if err := b.ctx.Err(); err != nil {
+						return 0, err
+					}
+					return 0, errors.New("http2: stream aborted: request body closed")
+				default:
+				}
+				if b.tr.reqEOF.Load() && b.ctx.Err() != nil {
+					return 0, b.ctx.Err()
+				}
+			} else if b.ctx.Err() != nil {
+				return 0, b.ctx.Err()
+			}
 		}
 	}
 }
@@ -165,6 +185,8 @@ type sTransport struct {
 	pause    atomic.Bool
 	drained  chan struct{}
 	doCalls  atomic.Int32
+	abort    chan struct{} // closed when the transport finds the request body closed under it (it then aborts the stream)
+	reqEOF   atomic.Bool   // the request body was read to its end
 	doDone   atomic.Bool  // Do has returned: from here on net/http's HTTP/2 transport does not watch the context while it waits on the request body
 	reqEnd   atomic.Value // string: how the request body ended, as the transport saw it
 }
@@ -195,8 +217,10 @@ func (t *sTransport) Do(req *http.Request) (*http.Response, error) {
 			if err != nil {
 				if err == io.EOF {
 					t.reqEnd.Store("eof")
+					t.reqEOF.Store(true)
 				} else {
 					t.reqEnd.Store(err.Error())
+					close(t.abort)
 				}
 				return
 			}
@@ -374,7 +398,8 @@ func newDxCallKind(r *h.Run, mode, fam, kind string, cfg envCfg, status int, pro
 	if protoMajor == 1 {
 		resp.ProtoMinor = 1
 	}
-	c.tr = &sTransport{gate: make(chan struct{}), resp: resp, drained: make(chan struct{})}
+	c.tr = &sTransport{gate: make(chan struct{}), resp: resp, drained: make(chan struct{}), abort: make(chan struct{})}
+	c.body.tr = c.tr
 	c.yc.hold["do.exit"] = c.hold
 	c.yc.arrived["do.exit"] = c.doExitArrived
 	connect.VerifSetYield(c.yc.hook)
@@ -954,8 +979,13 @@ func dxRandom(r *h.Run, rng *h.Rng, mode, fam string, cfg envCfg, delays []strin
 		for i := 0; i < steps && !c.timedOut && !c.closedResp; i++ {
 			plain(true)
 		}
-		if !c.closedResp && !c.timedOut && rng.Chance(25) {
-			c.cancel(kindOf())
+		if !c.closedResp && !c.timedOut && rng.Chance(35) {
+			if c.ready && c.recvFailed == "" && !c.bodyFinished && rng.Bool() {
+				// the program ends by cancelling while its Receive waits for the next message
+				c.recvCancel(kindOf())
+			} else {
+				c.cancel(kindOf())
+			}
 		}
 		c.finish(strings.Join(delays, "+") + "|")
 		return
